@@ -510,7 +510,7 @@ def _account(chk: Check, cases: T.List[T.Dict[str, T.Any]], alpha: T.List[T.Dict
         if rep and len(ops) >= 2:
             chk.nontriv(';'.join(f"{op['k']}{op['o']}{op['b']}{op['i']}" for op in ops) + f"g{c['g']}")
     common.use_repo_meson()
-    for c in cases[:: max(1, len(cases) // 2)][:2]:
+    for c in [cases[len(cases) // 3], cases[(2 * len(cases)) // 3]] if len(cases) >= 3 else cases[:1]:
         ops = c['ops'] if 'ops' in c else path_ops(space['ops'], [j - 1 for j in c['s']])   # type: ignore[index]
         ver = execute({'ops': ops, 'g': c['g'], 'f': c['f'], 'vseed': c['vseed']}, alpha, verbose=True)
         chk.sample({'calls': ver['calls'], 'returned': ver['r'], 'final': ver['o'], 'text': ver['text']}, limit=8)
